@@ -3,7 +3,7 @@
    order, in non-empty pieces, followed by exactly one end-of-body marker" (dv_delivered), and the FRAME lemmas of the
    request direction: a pass of the for(;;) of htp_connp_req_data in a state other than REQ_BODY_IDENTITY,
    REQ_BODY_CHUNKED_DATA, REQ_FINALIZE, REQ_CONNECT_PROBE_DATA, REQ_IGNORE_DATA_AFTER_HTTP_0_9 appends no REQUEST_BODY_DATA
-   event (the raw-data receiver hook being REQUEST_HEADER_DATA / REQUEST_TRAILER_DATA / none).  The invariants of
+   event and no REQUEST_COMPLETE event (the raw-data receiver hook being REQUEST_HEADER_DATA / REQUEST_TRAILER_DATA / none).  The invariants of
    PSeg*.v do not mention c_events; these lemmas are what lets the drivers of PDelivReq*.v carry "no body event so far in
    this call" through the header phase next to them. *)
 Require Import Htp.Model.Base Htp.Model.MBstr Htp.Model.MConnTypes Htp.Model.MTxCommon Htp.Model.MReqLine Htp.Model.MReqUri Htp.Model.MTxReq.
@@ -29,6 +29,42 @@ Proof.
   destruct (Nat.eqb (ev_hook e) h); cbn [rev]; [reflexivity|apply app_nil_r].
 Qed.
 Lemma dv_sel_evs h l : dv_sel h l = bd_evs h l. Proof. reflexivity. Qed.
+(* the events of the hooks P *)
+Definition dv_selp (P : nat -> bool) (log : list event) : list event := filter (fun e => P (ev_hook e)) log.
+Lemma dv_selp_app P a b : dv_selp P (a ++ b) = dv_selp P a ++ dv_selp P b.
+Proof. apply filter_app. Qed.
+Lemma dv_selp_rev P l : dv_selp P (rev l) = rev (dv_selp P l).
+Proof.
+  induction l as [|e l IH]; [reflexivity|]. cbn [rev]. rewrite dv_selp_app, IH. unfold dv_selp at 2 3. cbn [filter].
+  destruct (P (ev_hook e)); cbn [rev]; [reflexivity|apply app_nil_r].
+Qed.
+(* selecting one hook among the selected ones *)
+Lemma dv_sel_selp P h l : P h = true -> dv_sel h (dv_selp P l) = dv_sel h l.
+Proof.
+  intros HP. induction l as [|e l IH]; [reflexivity|]. unfold dv_selp, dv_sel in *. cbn [filter].
+  destruct (Nat.eqb (ev_hook e) h) eqn:E.
+  - apply Nat.eqb_eq in E. rewrite E, HP. cbn [filter]. rewrite E, Nat.eqb_refl, IH. reflexivity.
+  - destruct (P (ev_hook e)); [cbn [filter]; rewrite E|]; exact IH.
+Qed.
+(* data events, ONE marker, then the completion callback *)
+Definition dv_done (hc i : nat) : event := mkev hc i None false None.
+Definition dv_delivered_c (h hc i : nat) (last : bool) (body : bytes) (evs : list event) : Prop :=
+  exists ds, evs = map (dv_data h i) ds ++ [dv_marker h i last; dv_done hc i] /\ concat ds = body /\ Forall (fun d => d <> []) ds.
+Lemma dv_sel_map_data h i ds : dv_sel h (map (dv_data h i) ds) = map (dv_data h i) ds.
+Proof. induction ds as [|d ds IH]; [reflexivity|]. unfold dv_sel in *. cbn [map filter dv_data ev_hook]. rewrite Nat.eqb_refl, IH. reflexivity. Qed.
+Lemma dv_delivered_c_sel h hc i last body evs : h <> hc -> dv_delivered_c h hc i last body evs ->
+  dv_delivered h i last body (dv_sel h evs) /\ dv_sel hc evs = [dv_done hc i] /\ bd_marker_ok h hc evs false = true.
+Proof.
+  intros Hn (ds & E & C & F). subst evs. assert (N1 : Nat.eqb hc h = false) by (apply Nat.eqb_neq; congruence). assert (N2 : Nat.eqb h hc = false) by (apply Nat.eqb_neq; exact Hn).
+  split; [|split].
+  - exists ds. split; [|split; assumption]. rewrite dv_sel_app, dv_sel_map_data. unfold dv_sel. cbn [filter dv_marker dv_done ev_hook]. rewrite Nat.eqb_refl, N1. reflexivity.
+  - rewrite dv_sel_app. assert (Z0 : dv_sel hc (map (dv_data h i) ds) = []).
+    { clear - N2. induction ds as [|d ds IH]; [reflexivity|]. unfold dv_sel in *. cbn [map filter dv_data ev_hook]. rewrite N2. exact IH. }
+    rewrite Z0. unfold dv_sel. cbn [filter dv_marker dv_done ev_hook app]. rewrite N2, Nat.eqb_refl. reflexivity.
+  - apply bd_marker_skip.
+    + apply Forall_forall. intros e Hin. apply in_map_iff in Hin. destruct Hin as (d & Ed & _). subst e. cbn. exact Hn.
+    + intros s'. apply bd_marker_at; [exact Hn|reflexivity|reflexivity].
+Qed.
 
 (* what dv_delivered says in the vocabulary of Spec/SBody.v *)
 Lemma dv_map_data_bytes h i ds : concat (map bd_ev_bytes (map (dv_data h i) ds)) = concat ds.
@@ -84,10 +120,12 @@ Lemma dv_log_res_cons cb g c (x : bytes) ops :
 Proof. rewrite dv_cp_run_res_cons. cbn [snd map concat finish_call r_events]. reflexivity. Qed.
 
 (* ================= the frame relation, request direction ================= *)
-(* the REQUEST_BODY_DATA events of the current call, newest first *)
-Definition dv_rb (c : connp) : list event := bd_evs H_REQUEST_BODY_DATA (c_events c).
-(* the raw-data receiver is not the body-data hook (it is REQUEST_HEADER_DATA, REQUEST_TRAILER_DATA or none) *)
-Definition dv_rok (c : connp) : Prop := k_receiver_hook (c_in c) <> Some H_REQUEST_BODY_DATA.
+(* the hooks that are followed: REQUEST_BODY_DATA and the completion callback REQUEST_COMPLETE *)
+Definition dv_rq_hook (h : nat) : bool := Nat.eqb h H_REQUEST_BODY_DATA || Nat.eqb h H_REQUEST_COMPLETE.
+(* their events in the current call, newest first *)
+Definition dv_rb (c : connp) : list event := dv_selp dv_rq_hook (c_events c).
+(* the raw-data receiver is not one of them (it is REQUEST_HEADER_DATA, REQUEST_TRAILER_DATA or none) *)
+Definition dv_rok (c : connp) : Prop := forall h, k_receiver_hook (c_in c) = Some h -> dv_rq_hook h = false.
 (* c' : no body event appended, receiver still not the body-data hook *)
 Definition dv_fr (c c' : connp) : Prop := dv_rok c -> dv_rb c' = dv_rb c /\ dv_rok c'.
 (* c' : no event at all, receiver hook unchanged *)
@@ -107,13 +145,13 @@ Lemma dv_fr_same_r a b c : dv_fr a b -> dv_same b c -> dv_fr a c.
 Proof. intros H1 H2. eapply dv_fr_trans; [exact H1|apply dv_same_fr; exact H2]. Qed.
 
 (* a callback of a hook other than REQUEST_BODY_DATA that answered HTP_OK *)
-Lemma dv_fr_hook h i data last c : h <> H_REQUEST_BODY_DATA -> dv_fr c (wr_hook_ev h i data last c).
+Lemma dv_fr_hook h i data last c : dv_rq_hook h = false -> dv_fr c (wr_hook_ev h i data last c).
 Proof.
-  intros Hn Hr. split; [|exact Hr]. unfold dv_rb, wr_hook_ev, bd_evs. cbn [c_events emit set filter ev_hook].
-  apply Nat.eqb_neq in Hn. cbn. rewrite Hn. reflexivity.
+  intros Hn Hr. split; [|exact Hr]. unfold dv_rb, wr_hook_ev, dv_selp. cbn [c_events emit set filter ev_hook].
+  cbn. rewrite Hn. reflexivity.
 Qed.
 
-Lemma dv_fr_hook_r a b h i data last : h <> H_REQUEST_BODY_DATA -> dv_fr a b -> dv_fr a (wr_hook_ev h i data last b).
+Lemma dv_fr_hook_r a b h i data last : dv_rq_hook h = false -> dv_fr a b -> dv_fr a (wr_hook_ev h i data last b).
 Proof. intros Hn H. eapply dv_fr_trans; [exact H|apply dv_fr_hook; exact Hn]. Qed.
 Lemma dv_fr_state a x s : dv_fr a x -> dv_fr a (x <| c_in_state := s |>).
 Proof. intros H. exact H. Qed.
@@ -128,7 +166,7 @@ Proof. unfold tx_upd. destruct (tx_slot c i); [apply dv_same_tx_put|split; refle
 Lemma dv_same_rq_tx_upd f c : dv_same c (rq_tx_upd f c).
 Proof. unfold rq_tx_upd. destruct (c_in_tx c); [apply dv_same_tx_upd|split; reflexivity]. Qed.
 
-Ltac dv_ne := let E := fresh "E" in intro E; vm_compute in E; discriminate E.
+Ltac dv_ne := reflexivity.
 Ltac dv_splits := repeat match goal with
   | |- context [if ?b then _ else _] => destruct b
   | |- context [match ?x with _ => _ end] => destruct x
@@ -191,7 +229,7 @@ Lemma dv_fr_send last c : dv_fr c (snd (req_receiver_send_data cb last c)).
 Proof.
   unfold req_receiver_send_data. destruct (k_receiver_hook (c_in c)) as [h|] eqn:Eh; [|apply dv_fr_refl]. cbv zeta.
   unfold run_data_hook. rewrite (wr_run_hook_ex cb Hcb). cbn [snd].
-  intros Hr. assert (Hn : h <> H_REQUEST_BODY_DATA) by (intro E; apply Hr; rewrite Eh, E; reflexivity).
+  intros Hr. assert (Hn : dv_rq_hook h = false) by (apply Hr; exact Eh).
   match goal with |- context [wr_hook_ev h ?i ?d last ?x] => set (c0 := x); set (ii := i); set (dd := d) end.
   assert (H0 : dv_same c c0) by (unfold c0; destruct (_ <? _)%nat; split; reflexivity).
   destruct (dv_same_fr _ _ H0 Hr) as [A0 R0]. destruct (dv_fr_hook h ii dd last c0 Hn R0) as [A1 R1].
@@ -201,12 +239,12 @@ Lemma dv_fr_finalize c : dv_fr c (snd (req_receiver_finalize_clear cb c)).
 Proof.
   unfold req_receiver_finalize_clear. destruct (k_receiver_hook (c_in c)) eqn:Eh; [|apply dv_fr_refl].
   pose proof (dv_fr_send true c) as H. destruct (req_receiver_send_data cb true c) as [rc c1]. cbn [snd] in *.
-  intros Hr. destruct (H Hr) as [A R]. split; [exact A|]. unfold dv_rok. cbn. discriminate.
+  intros Hr. destruct (H Hr) as [A R]. split; [exact A|]. unfold dv_rok. cbn. intros h' E'. discriminate E'.
 Qed.
-Lemma dv_fr_receiver_set h c : h <> H_REQUEST_BODY_DATA -> dv_fr c (snd (req_receiver_set cb h c)).
+Lemma dv_fr_receiver_set h c : dv_rq_hook h = false -> dv_fr c (snd (req_receiver_set cb h c)).
 Proof.
   intros Hn. unfold req_receiver_set. pose proof (dv_fr_finalize c) as H. destruct (req_receiver_finalize_clear cb c) as [rc c1]. cbn [snd] in *.
-  intros Hr. destruct (H Hr) as [A R]. split; [exact A|]. unfold dv_rok. cbn. intro E. inversion E. contradiction.
+  intros Hr. destruct (H Hr) as [A R]. split; [exact A|]. unfold dv_rok. cbn. intros h' E. inversion E. subst h'. exact Hn.
 Qed.
 Lemma dv_fr_state_change c : dv_fr c (snd (req_handle_state_change cb c)).
 Proof.
@@ -238,7 +276,7 @@ Variable cb : cb_oracle.
 Variable g : cfg.
 Hypothesis Hcb : wr_all_ok cb.
 
-Lemma dv_fr_run_hook h i c : h <> H_REQUEST_BODY_DATA -> dv_fr c (snd (run_hook cb h i c)).
+Lemma dv_fr_run_hook h i c : dv_rq_hook h = false -> dv_fr c (snd (run_hook cb h i c)).
 Proof. intros Hn. rewrite (wr_run_hook cb Hcb). cbn [snd]. apply dv_fr_hook. exact Hn. Qed.
 Lemma dv_same_tx_create c : dv_same c (snd (connp_tx_create g c)).
 Proof. unfold connp_tx_create. cbv zeta. dv_splits; split; reflexivity. Qed.
